@@ -2,8 +2,10 @@ package sim
 
 import (
 	"encoding/json"
+	"errors"
 	"fmt"
 	"runtime"
+	"seata.apache.org/seata-go/pkg/rm/tcc"
 	"strings"
 	"testing"
 	"time"
@@ -29,6 +31,12 @@ type C14Episode struct {
 	// replies arrive (answered) or are swallowed by the coordinator (lost)
 	OneWay     int  `json:"one_way,omitempty"`
 	OneWayLost bool `json:"one_way_lost,omitempty"`
+	// ServerRequest: while the first caller's request is pending the coordinator
+	// sends a request of its own (a branch commit for a resource this client does
+	// not have) whose message id equals that of the pending request - the two
+	// sides number their messages independently -, and the client's answer to
+	// it meets a transient write error
+	ServerRequest bool `json:"server_request,omitempty"`
 }
 
 type C14Plan struct {
@@ -65,6 +73,7 @@ func genC14(seed uint64, tier string) *C14Plan {
 			e.OneWay = g.Range(1, 3)
 			e.OneWayLost = g.Bool()
 		}
+		e.ServerRequest = e.CloseAfterMs == 0 && g.Prob(0.15)
 		p.Episodes = append(p.Episodes, e)
 	}
 	return p
@@ -118,6 +127,9 @@ func runC14(t *testing.T, seed uint64, planJSON []byte, tier string) (res *Resul
 		sim.Known = loadKnown("C14")
 		sim.MaxStep = 2000000
 		sim.MaxTime = 5000 * time.Hour
+		// a resource manager, so that a branch request of the coordinator gets an
+		// answer (the TCC one: it knows no resource and answers with a failure)
+		tcc.InitTCC()
 		net.Open(TCAddr)
 		sim.Run(func() bool { return tc.SessionIsTM(0) && sim.Enabled() == 0 })
 		stopYield := func() {}
@@ -162,6 +174,25 @@ func runC14(t *testing.T, seed uint64, planJSON []byte, tier string) (res *Resul
 			c.seenByTC = true
 			c.reqID = f.ID
 			byID[f.ID] = c
+			if ep != nil && ep.ServerRequest && firstSeen < 0 {
+				clash := f.ID
+				failOnce := true
+				net.WriteHook = func(sid int, code int) error {
+					if code == simtc.TBranchCommitResult && failOnce {
+						failOnce = false
+						return errors.New("simnet: write would block (injected)")
+					}
+					return nil
+				}
+				sim.Fault("tc-request-with-clashing-message-id")
+				sim.Post(fmt.Sprintf("tc-own-request|%d|%010d", sess, uint32(clash)), 7*time.Microsecond, "", func() {
+					if net.IsOpen(sess) {
+						rq := &simtc.Frame{Type: simtc.FrameRequest, Codec: f.Codec, ID: clash, Body: &simtc.Msg{Code: simtc.TBranchCommit, Xid: TCAddr + ":777", BranchID: 4242, ResourceID: "c14-no-such-resource", BranchType: 1}}
+						sim.Logf("TC-> s%d own request with message id %d", sess, clash)
+						net.ToClient(sess, simtc.EncodeFrame(rq))
+					}
+				})
+			}
 			if firstSeen < 0 {
 				firstSeen = sim.Now()
 				if ep != nil && ep.CloseAfterMs > 0 {
@@ -205,6 +236,7 @@ func runC14(t *testing.T, seed uint64, planJSON []byte, tier string) (res *Resul
 
 		for i := range plan.Episodes {
 			ep = &plan.Episodes[i]
+			net.WriteHook = nil
 			callers = map[string]*c14Caller{}
 			firstSeen = -1
 			closeFired = false
